@@ -1,2 +1,3 @@
-"""Import every profile module so that REGISTRY is complete."""
-from . import profiles  # noqa
+"""Import every profile/op module so that the registries are complete."""
+from . import ops_own, ops_se, ops_index  # noqa
+from . import profiles, profile_c12  # noqa
